@@ -532,7 +532,11 @@ class CatalogWriter(AbstractContextManager, HandlesDataChunk):
             raise ValueError(f"patch with ID {patch_id} contains no data")
 
         patch_ids = np.fromiter(self.writers.keys(), dtype=np.int16)
-        np.sort(patch_ids).tofile(self.cache_directory / PATCH_INFO_FILE)
+        # the file marks the cache as complete, it must never exist partially
+        path = self.cache_directory / PATCH_INFO_FILE
+        temp_path = path.with_suffix(".tmp")
+        np.sort(patch_ids).tofile(temp_path)
+        temp_path.rename(path)
 
 
 def write_patches_unthreaded(
